@@ -13,15 +13,17 @@ class _sparse:
     def __init__(self, t, qs):
         self.t = t; self.qs = qs
     def __call__(self, env, res, rules, st):
-        ns = dict(res=res, **{k: v for k, v in env.items() if not k.startswith('#')})
+        ns = dict(res=res, **{k.lstrip('#'): v for k, v in env.items() if not k.startswith('#') or k in ('#qdn', '#q2', '#qdp', '#qm')})
         return support_holds(eval(self.t, ns), list(eval(self.qs, ns)), st.env.get('#support', {}))
     def numeric(self, ns):
         return ns['qsparse'](eval(self.t, ns), eval(self.qs, ns))
 
 def _args_left():
     qd = qv('qd', 'd'); q0 = qv('qD0', 'D0'); q1 = qv('qD1', 'D1')
+    qdn = qv('qdn', 'dn'); q2 = qv('qD2', 'D2')
+    sup = _site_support('A', qd, q0, q1); sup.update(_site_support('Anext', qdn, q1, q2))
     return {'A': inp('A', ('d', 'D0', 'D1')), 'Anext': inp('Anext', ('dn', 'D1', 'D2')), 'qd': qd, 'qD': (q0, q1),
-            '#support': _site_support('A', qd, q0, q1)}
+            '#support': sup, '#qdn': qdn, '#q2': q2}
 
 TContract(fn='mps.local_orthonormalize_left_qr', args=_args_left, uses={'qr': K_qr},
           ensures={
@@ -31,6 +33,7 @@ TContract(fn='mps.local_orthonormalize_left_qr', args=_args_left, uses={'qr': K_
                         "shape(res[1])[0] == shape(Anext)[0] and shape(res[1])[2] == shape(Anext)[2]"
                         "and res[2].dim == shape(res[0])[2]",
               'sparse_A': _sparse('res[0]', '[qd, qD[0], -res[2]]'),
+              'sparse_Anext': _sparse('res[1]', '[qdn, res[2], -q2]'),
           },
           canaries={'left_isometry': "einsum('sac*,sbc->ab', res[0], res[0]) == identity(shape(res[0])[1])",
                     'pair_preserved': "einsum('sac,tcb->stab', res[0], res[1]) == einsum('saj,tjb->tsab', A, Anext)"},
@@ -38,8 +41,10 @@ TContract(fn='mps.local_orthonormalize_left_qr', args=_args_left, uses={'qr': K_
 
 def _args_right():
     qd = qv('qd', 'd'); q0 = qv('qD0', 'D0'); q1 = qv('qD1', 'D1')
+    qdp = qv('qdp', 'dp'); qm = qv('qDm', 'Dm')
+    sup = _site_support('A', qd, q0, q1); sup.update(_site_support('Aprev', qdp, qm, q0))
     return {'A': inp('A', ('d', 'D0', 'D1')), 'Aprev': inp('Aprev', ('dp', 'Dm', 'D0')), 'qd': qd, 'qD': (q0, q1),
-            '#support': _site_support('A', qd, q0, q1)}
+            '#support': sup, '#qdp': qdp, '#qm': qm}
 
 TContract(fn='mps.local_orthonormalize_right_qr', args=_args_right, uses={'qr': K_qr},
           ensures={
@@ -48,6 +53,7 @@ TContract(fn='mps.local_orthonormalize_right_qr', args=_args_right, uses={'qr': 
               'shapes': "shape(res[0])[0] == shape(A)[0] and shape(res[0])[2] == shape(A)[2] and shape(res[0])[1] == shape(res[1])[2] and "
                         "shape(res[1])[:2] == shape(Aprev)[:2] and res[2].dim == shape(res[0])[1]",
               'sparse_A': _sparse('res[0]', '[qd, res[2], -qD[1]]'),
+              'sparse_Aprev': _sparse('res[1]', '[qdp, qm, -res[2]]'),
           },
           canaries={'right_isometry': "einsum('sac*,sad->cd', res[0], res[0]) == identity(shape(res[0])[2])",
                     'sparse_A': _sparse('res[0]', '[qd, -res[2], -qD[1]]')},
